@@ -383,3 +383,14 @@ Lemma typed_eq_same_mapping a b : twf a = true -> twf b = true -> tscope_eqb a b
 Proof.
   intros Ha Hb He. apply scope_eqb_same_mapping; [now rewrite twf_erase|now rewrite twf_erase|now apply tscope_eqb_erase].
 Qed.
+
+(* non-vacuity of the eq theorems: two scopes that differ in insertion orders, in the representation of a constant (4/2 vs 2)
+   and in a duplicated volatile name are == and denote the same mapping; changing one constant makes them unequal *)
+Lemma eq_same_mapping_example :
+  let a := SMapped (SDict [(0%N, 1#1); (1%N, 2#1)] [0%N]) [(2%N, EAdd (EVar 0%N) (EVar 1%N)); (3%N, EConst (4#2))] in
+  let b := SMapped (SDict [(1%N, 4#2); (0%N, 1#1)] [0%N; 0%N]) [(3%N, EConst (2#1)); (2%N, EAdd (EVar 0%N) (EVar 1%N))] in
+  let c := SMapped (SDict [(1%N, 2#1); (0%N, 5#1)] [0%N]) [(3%N, EConst (2#1)); (2%N, EAdd (EVar 0%N) (EVar 1%N))] in
+  a <> b /\ wf_scope a = true /\ wf_scope b = true /\ scope_eqb a b = true /\ scope_eqb a c = false /\
+  denote_scope a = Ok [(0%N, 1#1); (1%N, 2#1); (2%N, 3#1); (3%N, 4#2)] /\
+  denote_scope b = Ok [(1%N, 4#2); (0%N, 1#1); (3%N, 2#1); (2%N, 6#2)].
+Proof. split; [discriminate|]. vm_compute. repeat split; reflexivity. Qed.
